@@ -131,6 +131,11 @@ def define():
     ins("Sizeless", True, "none", "stack", "heap", "W8", tier="rot3")
     ins("Sizeless", False, "none", "stack", "heap", "B1")
     rem("Remove", "DowncastRef", "none", "heap", "heap", "H2")
+    # element types without drop glue take different branches in the handle's Drop
+    rem("SwapRemove", "Drop", "none", "heap", "heap", "H2")
+    rem("Remove", "Drop", "none", "stack", "heap", "B1")
+    rem("Remove", "Drop", "none", "heap", "heap", "W8", tier="rot3")
+    rem("SwapRemove", "MutDowncast", "none", "stack", "heap", "W8", tier="rot3")
     clear(False, "none", "heap", "Z0D")
     # zero-sized
     ins("Wrapper", False, "none", "heap", "heap", "Z0D")
